@@ -132,6 +132,9 @@ func genBasketCreate(w *World) sdk.Msg {
 	if f := w.offerFee("fee", w.RequiredBasketFee(), curator); f != nil {
 		m.Fee = sdk.Coins{*f}
 	}
+	if w.chance("?exponent", 10) { // deprecated field: the exponent comes from the credit type's precision
+		m.Exponent = pickOf(w, "exponent", []uint32{6, 0, 3, 9, 18})
+	}
 	return m
 }
 
